@@ -74,6 +74,7 @@ func main() {
 	verif := flag.String("verif", "/verif", "verif root")
 	out := flag.String("out", "", "output directory")
 	goroot := flag.String("goroot", "", "GOROOT of the toolchain that will build (for shim generation)")
+	plain := flag.Bool("plain", false, "import swaps only, no access instrumentation at all (last resort when the instrumented tree does not compile)")
 	wide := flag.Bool("wide", false, "instrument every package of the repository (statement-level scheduling points everywhere; C01's concurrent part)")
 	flag.Parse()
 	if *out == "" {
@@ -182,7 +183,7 @@ func main() {
 				continue
 			}
 			var fields, pkgVars map[string]bool
-			if instrumented[d] && (instrumentedFiles[d] == nil || instrumentedFiles[d][filepath.Base(f)]) {
+			if !*plain && instrumented[d] && (instrumentedFiles[d] == nil || instrumentedFiles[d][filepath.Base(f)]) {
 				fields = packageFieldNames(abs)
 				if instrumentVars[d] {
 					pkgVars = packageVarNames(abs)
